@@ -332,3 +332,23 @@ def run(ck, prog):
 
 
 EXPLANATION += (' The stopping test against tol measures the gap against the dual objective itself, not against max/min(dual objective, constant) (E4-scale; three independent seeds).')
+
+
+# ------------------------------------------------------------------ generic: no magnitude is compared with a signed raw element
+_run_pre_magnitude = run
+
+
+def run(ck, prog):
+    _run_pre_magnitude(ck, prog)
+    from sa import magnitude
+    magnitude.run_rule(ck, prog, set(DIMENSION_FILES))
+
+
+# ------------------------------------------------------------------ generic: backward strided scans (`j -= step`) continue exactly while j >= step
+_run_pre_subguard = run
+
+
+def run(ck, prog):
+    _run_pre_subguard(ck, prog)
+    from sa import subguard
+    subguard.run_rule(ck, prog, set(DIMENSION_FILES))
